@@ -68,6 +68,8 @@ def main() -> int:
         "engines": [
             {"name": "hypothesis", "path": "vf/", "serves_properties": [c["property_id"] for c in checks],
              "kind_free_text": "Hypothesis 6.168 strategies and rule-based state machines; 16 shards in fresh interpreters; replay bypasses the library"},
+            {"name": "atheris", "path": "vf/fuzz/", "serves_properties": ["C01", "C02", "C03", "C04", "C05", "C06", "C07", "C08", "C11", "C12", "C13", "C14", "C17"],
+             "kind_free_text": "thorough tier only: atheris / libFuzzer campaigns in child processes - byte-level targets (C07, C13) and the Hypothesis strategies driven through fuzz_one_input under coverage feedback (cover-<part>); the oracle is the part's plain check function"},
         ],
         "checks": checks,
         "notes": "run.py check <ID> --tier quick|thorough [--seed N]; VERIF_SEED is honoured; exit 0 / 1 (VIOLATION line) / 2 (HARNESS-ERROR). known_findings.json lists recorded and fixed defects.",
